@@ -10,7 +10,7 @@ EXTENDS MCUniverse, FiniteSetsExt
 CONSTANTS MaxDev
 
 S(i) == JStr("salt" \o ToString(i))
-Shapes == {"good", "len0", "len1", "len2", "len3", "len4", "len5", "str", "obj", "num", "name-num", "name-null", "name-_sd", "name-dots", "name-vis", "name-dup"}
+Shapes == {"good", "len0", "len1", "len2", "len3", "len4", "len5", "str", "obj", "num", "name-num", "name-null", "name-_sd", "name-dots", "name-vis", "name-dup", "name-cnf"}
 Flags == {"dup-within", "dup-across", "dup-nested", "dup-arrays", "dup-junk", "nonstring-entry", "ph-extra", "ph-nonstring", "sd-notarray", "sd-empty"}
 Algs == {"absent", "sha-512", "sha-1", "upper", "number", "null"}
 Devs == {[k |-> "shape", slot |-> s, shape |-> sh] : s \in 1..5, sh \in Shapes \ {"good"}}
@@ -41,6 +41,8 @@ Dec(s, shape, val) ==
     [] shape = "name-_sd" -> JArr(<<S(s), JStr("_sd"), val>>)
     [] shape = "name-dots" -> JArr(<<S(s), JStr("..."), val>>)
     [] shape = "name-vis" -> JArr(<<S(s), JStr(IF s = 4 THEN "in" ELSE "vis"), val>>)
+    \* (the top level has a visible `cnf`: a disclosure of that name collides there - and only there; seeded W12_5m1)
+    [] shape = "name-cnf" -> JArr(<<S(s), JStr("cnf"), val>>)
     [] shape = "name-dup" -> JArr(<<S(s), JStr(IF s = 2 THEN "n1" ELSE IF s = 1 THEN "n2" ELSE Name(s)), val>>)
 Build(D) ==
   LET d4 == MkDisc(Dec(4, ShapeOf(D, 4), JStr("v4")), "raw")
@@ -60,9 +62,9 @@ Build(D) ==
             ELSE IF Flag(D, "ph-extra") THEN JObj([k \in {"...", "x"} |-> IF k = "x" THEN JNum("1") ELSE g3])
             ELSE JObj([k \in {"..."} |-> IF Flag(D, "dup-across") THEN g2 ELSE g3])
       alg == IF \E d \in D : d.k = "alg" THEN (CHOOSE d \in D : d.k = "alg").v ELSE "sha-256"
-      keys == {"iss", "exp", "vis", "_sd", "arr", "grid"} \cup (IF alg = "absent" THEN {} ELSE {"_sd_alg"})
+      keys == {"iss", "exp", "vis", "cnf", "_sd", "arr", "grid"} \cup (IF alg = "absent" THEN {} ELSE {"_sd_alg"})
       pl == JObj([k \in keys |->
-               CASE k = "iss" -> JStr("i1") [] k = "exp" -> JNum("EXP") [] k = "vis" -> JStr("x") [] k = "_sd" -> sd
+               CASE k = "iss" -> JStr("i1") [] k = "exp" -> JNum("EXP") [] k = "vis" -> JStr("x") [] k = "cnf" -> JObj([j \in {"kid"} |-> JStr("some-key")]) [] k = "_sd" -> sd
                  [] k = "arr" -> JArr(<<phl, JStr("e1")>>)
                  \* (dup-arrays: the inner placeholder repeats the digest of arr's placeholder - the same digest in two arrays)
                  [] k = "grid" -> JArr(<<JArr(<<JObj([x \in {"..."} |-> JStr(IF Flag(D, "dup-arrays") THEN d3.dg ELSE d5.dg)]), JStr("x")>>), JStr("y")>>)
@@ -78,7 +80,7 @@ Fam == [k \in {"K1", "K2", "H1", "H2"} |-> "EC"]
 
 (* What draft-07 8.1 requires for a deviation set D (the theory of the template) *)
 BadShapeMember == {"len0", "len1", "len2", "len4", "len5", "str", "obj", "num", "name-num", "name-null", "name-_sd", "name-dots", "name-vis"}
-BadShapeElem == {"len0", "len1", "len3", "len4", "len5", "str", "obj", "num", "name-num", "name-null", "name-_sd", "name-dots", "name-vis", "name-dup"}
+BadShapeElem == {"len0", "len1", "len3", "len4", "len5", "str", "obj", "num", "name-num", "name-null", "name-_sd", "name-dots", "name-vis", "name-dup", "name-cnf"}
 SdSearched(D) == ~Flag(D, "sd-notarray") /\ ~Flag(D, "sd-empty") /\ ~Flag(D, "nonstring-entry")
 Reach1(D) == SdSearched(D) /\ ~Dropped(D, 1)
 Reach2(D) == SdSearched(D) /\ ~Dropped(D, 2)
@@ -91,6 +93,8 @@ MustReject(D) ==
   \/ \E d \in D : d.k = "alg" /\ d.v \in {"sha-512", "sha-1", "upper", "number", "null"}
   \/ Reach1(D) /\ ShapeOf(D, 1) \in BadShapeMember
   \/ Reach2(D) /\ ShapeOf(D, 2) \in BadShapeMember
+  \/ Reach1(D) /\ ShapeOf(D, 1) = "name-cnf"                                                     \* collides with the visible top-level cnf
+  \/ Reach2(D) /\ ShapeOf(D, 2) = "name-cnf"
   \/ Reach1(D) /\ Reach2(D) /\ NameIn(D, 1) # "" /\ NameIn(D, 1) = NameIn(D, 2)                    \* two disclosed members with one name
   \/ Reach3(D) /\ ShapeOf(D, 3) \in BadShapeElem
   \/ Reach4(D) /\ ShapeOf(D, 4) \in BadShapeMember
